@@ -284,7 +284,9 @@ ExpEs(case) == {ExpEr(case, "own"), ExpEr(case, "all")}
 (* chart's default values (upgrade.go:reuseValues sets chart.Values to the old coalesced     *)
 (* values), i.e. the operation runs on a chart whose root defaults are the old final values. *)
 (* What must be rendered by the operation of a route is ExpEs(CaseFor(case, r)).             *)
-Routes == {"template", "install", "upgrade", "upgrade-reuse", "upgrade-reset-then-reuse", "upgrade-reset"}
+(* "upgrade-new": a release installed with the chart defaults only is upgraded WITH the case's values (so what  *)
+(* they switch on or off changes between the deployed and the new revision); the values in force are the case's. *)
+Routes == {"template", "install", "upgrade", "upgrade-reuse", "upgrade-reset-then-reuse", "upgrade-reset", "upgrade-new"}
 CaseFor(case, route) ==
   CASE route = "upgrade-reset" -> [case EXCEPT !.user = {}, !.uset = {}]
     [] route = "upgrade-reuse" -> [case EXCEPT !.charts[RootChart].defaults = FinalCode(case)]
